@@ -69,6 +69,21 @@ static const uint8_t CONmtModeCode[CO_MODE_NUM] = {
 * PROTECTED API FUNCTIONS
 ******************************************************************************/
 
+/* run the type specific initialization of a communication object again */
+static void CONmtObjInit(CO_NODE *node, uint32_t key)
+{
+    CO_OBJ *obj;
+    CO_ERR  err;
+
+    obj = CODictFind(&node->Dict, key);
+    if (obj != NULL) {
+        err = COObjInit(obj, node);
+        if (err != CO_ERR_NONE) {
+            node->Error = CO_ERR_OBJ_INIT;
+        }
+    }
+}
+
 void CONmtReset(CO_NMT *nmt, CO_NMT_RESET type)
 {
     CO_OBJ *store;
@@ -115,6 +130,12 @@ void CONmtReset(CO_NMT *nmt, CO_NMT_RESET type)
         COIfCanReset(&nmt->Node->If);
         COEmcyReset(&nmt->Node->Emcy, 1);
         COSyncInit(&nmt->Node->Sync, nmt->Node);
+        /* restart services, which are started by the object initialization:
+         * sync consumer/producer, heartbeat consumers, heartbeat producer
+         */
+        CONmtObjInit(nmt->Node, CO_DEV(0x1005, 0));
+        CONmtObjInit(nmt->Node, CO_DEV(0x1016, 0));
+        CONmtObjInit(nmt->Node, CO_DEV(0x1017, 0));
         if (nobootup == 0) {
             CONmtBootup(nmt);
         }
